@@ -11,6 +11,21 @@ CHECKS = {
          "Exhaustive enumeration (iterative-deepening DFS with a transposition table on the full-store digest) of every propose/delete/advance history over two bridges up to the completed depth, executing the real ophost MsgServer with runTx semantics; after every transition a per-bridge reference log is compared with the OutputProposals/OutputProposal queries, the next-index counter and the raw store, acceptance must imply the model's guard and rejection must leave the digest unchanged.",
          "Trusted: Go toolchain, cosmos-sdk store/auth/bank, harness world construction (mirrors the repo's test setup), one-message-per-tx = baseapp.runTx semantics. Bounded: 2 bridges, period 10s, depth 5 (quick) / 7 (thorough).",
          "DESIGN.md §6 C11"),
+ "C02": ("model_checking",
+         "explicit-state IDDFS over real handlers + paid-ledger model",
+         "Exhaustive enumeration of every propose/delete/re-propose/advance/finalize history (3 leaves, two trees sharing leaves, a bogus root, output indices 1-2, two submitters) up to the completed depth on the real ophost handlers; oracle: paid[w] <= 1, a finalize is accepted only against a stored, final output whose root matches the proof's tree (independent leaf/tree/output-root code), recipient and escrow balances equal the paid ledger, Claimed query iff paid in every state, rejected messages leave the digest unchanged.",
+         "Trusted: as C11 plus the independent SHA3/merkle reference (pinned against Python hashlib vectors). Bounded: 3 leaves, depth 6 (quick) / 8 (thorough).",
+         "DESIGN.md §6 C02"),
+ "C05": ("model_checking",
+         "explicit-state IDDFS with deadline-region time menu",
+         "Per finalization period of a menu (sub-second, fractional, huge), exhaustive enumeration of propose/delete/finalize/role-update histories interleaved with every block time of the deadline-region menu (each stored output's deadline -1s, -1ns, 0, +1ns, +999ms, +1s), on the real handlers; oracle clauses: no finality gate passes before deadline-1s, non-final outputs are deletable by every authorised role, finalize gate = delete guard = IsFinalized = LastFinalizedOutput, final outputs stay stored/identical/final across every transition, stored period constant; plus the creation/genesis probe over positive, zero and negative periods.",
+         "Trusted: as C11. The one-second band of the property is built into the oracle. Bounded: <= 3 live outputs, depth 7 (quick) / 9 (thorough), period menu.",
+         "DESIGN.md §6 C05"),
+ "C10": ("model_checking",
+         "explicit-state IDDFS over real handlers + per-bridge counter model",
+         "Exhaustive enumeration of all interleavings of bridge creation and deposits over three bridge ids (two created mid-history), two denoms, zero/non-zero amounts, short/long recipients, payloads and an unfunded sender; oracle: accepted => bridge exists, returned sequence = that bridge's own counter, exactly one event with the 8 requested attributes, balances moved by the amount, token pair = independent derivation and immutable; a freshly created bridge has nothing pre-recorded; queries = model in every state.",
+         "Trusted: as C11 plus the independent L2-denom / bridge-address derivations. Bounded: 3 ids, depth 7 (quick) / 10 (thorough).",
+         "DESIGN.md §6 C10"),
 }
 NOT_YET = {}
 
